@@ -626,7 +626,7 @@ def chk_estimate(ctx, case):
         decided = last_def[other] > 1e3 * TOL_LAST          # the run shows WHICH constraint was projected last
         ctx.count("estimates", key=(case["id"], "last"), nontrivial=decided, label="last-constraint-exact:%s:%s" % (order, "decided" if decided else "both-exact"))
         if last_def[order] > TOL_LAST:
-            if last_def[other] <= TOL_LAST:
+            if last_def[other] <= TOL_LAST and last_def[order] <= tol:          # feasible to the Dykstra threshold, exact in the OTHER constraint
                 ctx.violation("estimates", ORDER_SITE, ORDER_SIG,
                               "%s %s para=False flags (eq on, ineq on) option mode_proj_order=%s: the estimate and the stored iterates satisfy the constraint projected last in order %r to rounding "
                               "(defect %.2e) and the one projected last in the option's order only to %.2e — the projection ran in the other order" % (
